@@ -427,3 +427,110 @@ fn c06_fen_cover() {
     kani::cover!(matches!(r, Err(ParseFenError::InvalidTurn(_))));
     kani::cover!(matches!(r, Err(ParseFenError::InvalidEnpassant { .. })));
 }
+
+// single-byte windows (cost experiments / C06 windows)
+window!(c06_win1_00, 0, 1, 0);
+window!(c06_win1_38, 38, 1, 0);
+window!(c06_win1_40, 40, 1, 0);
+window!(c06_win1_45, 45, 1, 0);
+window!(c06_win1_47, 47, 1, 0);
+window!(c06_win1_51, 51, 1, 0);
+/// Debug for CastleRights (used by Display for Board): all 16 values -> "KQkq" subset in this order, or "-"
+#[kani::proof]
+#[kani::unwind(10)]
+fn c05_rights_text() {
+    use core::fmt::Write;
+    let bits: u8 = kani::any();
+    kani::assume(bits < 16);
+    let cr = rights_from_bits(bits);
+    let mut w = Buf { b: [0; f::FEN_MAX], n: 0 };
+    assert!(write!(w, "{:?}", cr).is_ok(), "VERIF Debug for CastleRights failed");
+    let mut want = [0u8; 4];
+    let mut n = 0;
+    if bits & r::R_WK != 0 { want[n] = b'K'; n += 1; }
+    if bits & r::R_WQ != 0 { want[n] = b'Q'; n += 1; }
+    if bits & r::R_BK != 0 { want[n] = b'k'; n += 1; }
+    if bits & r::R_BQ != 0 { want[n] = b'q'; n += 1; }
+    if n == 0 { want[0] = b'-'; n = 1; }
+    assert!(w.n == n && w.b[0] == want[0] && (n < 2 || w.b[1] == want[1]) && (n < 3 || w.b[2] == want[2]) && (n < 4 || w.b[3] == want[3]), "VERIF castling rights text for {}", bits);
+}
+
+#[kani::proof]
+#[kani::unwind(56)]
+fn xp_lit_51() {
+    let mut s = *b"r3k2r/8/8/pppppppp/PPPPPPPP/8/8/R3K2R w KQkq - 10 20";
+    s[51] = kani::any();
+    match parse_fen(&s) {
+        Ok(b) => assert!(b.validate().is_ok()),
+        Err(_) => (),
+    }
+}
+#[kani::proof]
+#[kani::unwind(56)]
+fn xp_lit_00() {
+    let mut s = *b"r3k2r/8/8/pppppppp/PPPPPPPP/8/8/R3K2R w KQkq - 10 20";
+    s[0] = kani::any();
+    s[1] = kani::any();
+    match parse_fen(&s) {
+        Ok(b) => assert!(b.validate().is_ok()),
+        Err(_) => (),
+    }
+}
+#[kani::proof]
+#[kani::unwind(56)]
+fn xp_lit_tail() {
+    let mut s = *b"r3k2r/8/8/pppppppp/PPPPPPPP/8/8/R3K2R w KQkq - 10 20";
+    s[38] = kani::any();
+    s[45] = kani::any();
+    s[47] = kani::any();
+    s[48] = kani::any();
+    match parse_fen(&s) {
+        Ok(b) => assert!(b.validate().is_ok()),
+        Err(_) => (),
+    }
+}
+
+// ---------------------------------------------------------------- ground round trips (one canonical FEN each)
+/// parse -> board -> Display reproduces the text byte for byte; the spec writer applied to the parsed position
+/// reproduces it too (so the board denotes exactly the position the text describes); hash field == from-scratch
+/// hash; cached sets == spec; the position is playable
+macro_rules! ground {
+    ($name:ident, $text:expr) => {
+        #[kani::proof]
+        #[kani::unwind(97)]
+        fn $name() {
+            use core::fmt::Write;
+            let text: &[u8] = $text;
+            match parse_fen(text) {
+                Err(e) => assert!(false, "VERIF canonical FEN rejected: {:?}", e),
+                Ok(b) => {
+                    let p = view(&b);
+                    let mut o = f::Out::new();
+                    f::fen_spec(&p, &mut o);
+                    let mut w = Buf { b: [0; f::FEN_MAX], n: 0 };
+                    assert!(write!(w, "{}", b).is_ok(), "VERIF Display failed");
+                    assert!(o.n == text.len() && w.n == text.len(), "VERIF round-trip length: text {} spec {} Display {}", text.len(), o.n, w.n);
+                    let mut i = 0;
+                    while i < f::FEN_MAX {
+                        if i < text.len() {
+                            assert!(o.b[i] == text[i], "VERIF parsed position does not denote the text at byte {}", i);
+                            assert!(w.b[i] == text[i], "VERIF Display(parse(text)) differs from text at byte {}", i);
+                        }
+                        i += 1;
+                    }
+                    assert!(b.zobrist == piece_hash_spec(&b), "VERIF parsed hash field != from-scratch piece hash");
+                    assert!(b.checkers.to_u64() == r::checkers_spec(&p) && b.pinned.to_u64() == r::pinned_spec(&p), "VERIF parsed cached sets != spec");
+                    assert!(r::playable(&p), "VERIF parsed position not playable");
+                }
+            }
+        }
+    };
+}
+ground!(c05_ground_standard, b"rnbqkbnr/pppppppp/8/8/8/8/PPPPPPPP/RNBQKBNR w KQkq - 0 1");
+ground!(c05_ground_kiwipete, b"r3k2r/p1ppqpb1/bn2pnp1/3PN3/1p2P3/2N2Q1p/PPPBBPPP/R3K2R w KQkq - 10 99");
+ground!(c05_ground_ep_white, b"rnbqkbnr/ppp1pppp/8/3pP3/8/8/PPPP1PPP/RNBQKBNR w KQkq d6 0 3");
+ground!(c05_ground_ep_black, b"rnbqkbnr/pppp1ppp/8/8/3Pp3/8/PPP1PPPP/RNBQKBNR b KQkq d3 0 3");
+ground!(c05_ground_rights_kq, b"r3k2r/8/8/8/8/8/8/R3K2R b Kq - 100 9999");
+ground!(c05_ground_rights_qk, b"r3k2r/8/8/8/8/8/8/R3K2R w Qk - 9 10");
+ground!(c05_ground_runs, b"1k6/2p5/3n4/4b3/5r2/6q1/7P/K7 b - - 1234 567");
+ground!(c05_ground_check, b"4k3/8/8/8/8/8/4r3/4K2R w K - 3 40");
